@@ -25,6 +25,9 @@ type c05Case struct {
 	Probe   vstat.Q   `json:"probe"`
 	// CurrentYear: the VMs run with the syslog-use-current-year option
 	CurrentYear bool `json:"current_year,omitempty"`
+	// GcAfter: indices of history lines after which the store's garbage
+	// collector runs (it removes expired label values behind the VM's back)
+	GcAfter []int `json:"gc_after,omitempty"`
 }
 
 type c05Row struct {
@@ -101,6 +104,7 @@ type c05Res struct {
 	accepted bool
 	outside  string
 	special  bool
+	gc       bool
 }
 
 func runC05(c c05Case) (*vstat.Failure, c05Res) {
@@ -136,8 +140,28 @@ func runC05x(c c05Case) (*vstat.Failure, c05Res) {
 	res.accepted = true
 	va := hx.NewVM("c05a.mtail", objA, c.CurrentYear, nil)
 	vb := hx.NewVM("c05b.mtail", objB, c.CurrentYear, nil)
-	for _, h := range c.History {
-		va.ProcessLogLine(nil, hx.Line("/var/log/x.log", string(h)))
+	var storeA *metrics.Store
+	if len(c.GcAfter) > 0 {
+		storeA = metrics.NewStore()
+		for _, m := range objA.Metrics {
+			if !m.Hidden {
+				if err := storeA.Add(m); err != nil {
+					return vstat.Failf("harness", "store: %v", err), res
+				}
+			}
+		}
+	}
+	for i, h := range c.History {
+		hx.Run(va, "/var/log/x.log", string(h))
+		for _, g := range c.GcAfter {
+			if g == i {
+				time.Sleep(2 * time.Millisecond) // let 1 ms expiries pass
+				if err := storeA.Gc(); err != nil {
+					return vstat.Failf("harness", "gc: %v", err), res
+				}
+				res.gc = true
+			}
+		}
 	}
 	if err := installState(objA, objB); err != nil {
 		res.outside = err.Error()
@@ -149,8 +173,8 @@ func runC05x(c c05Case) (*vstat.Failure, c05Res) {
 	}
 	ea0, eb0 := hx.RuntimeErrors("c05a.mtail"), hx.RuntimeErrors("c05b.mtail")
 	t0 := time.Now().Add(-2 * time.Second).UnixNano()
-	va.ProcessLogLine(nil, hx.Line("/var/log/x.log", string(c.Probe)))
-	vb.ProcessLogLine(nil, hx.Line("/var/log/x.log", string(c.Probe)))
+	hx.Run(va, "/var/log/x.log", string(c.Probe))
+	hx.Run(vb, "/var/log/x.log", string(c.Probe))
 	t1 := time.Now().Add(2 * time.Second).UnixNano()
 	ea, eb := hx.RuntimeErrors("c05a.mtail")-ea0, hx.RuntimeErrors("c05b.mtail")-eb0
 	desc := func() string {
@@ -186,7 +210,7 @@ func runC05x(c c05Case) (*vstat.Failure, c05Res) {
 func firstLineOf(s string) string { return strings.SplitN(s, "\n", 2)[0] }
 
 func TestC05(t *testing.T) {
-	st := vstat.New("C05", "programs from G biased towards per-line state (strptime on captured timestamps under one of two layouts, settime, timestamp(), stop, failing conversions, short-circuit conditions with match operators), a history of 0-10 lines and a probe line that shares material with the history (an exact repeat, the same timestamp text, the line that hit stop or a failing conversion) in most cases; run A = history then probe on one VM; run B = fresh compile whose metrics are set to A's pre-probe state through the datum API, then the probe; effects, error flag and timestamps of the data the probe touched must agree. non-trivial = non-empty history, and the program uses a time builtin, stop or a conversion, and the probe shares a token with the history; distinct by (source, history, probe)")
+	st := vstat.New("C05", "programs from G biased towards per-line state (strptime on captured timestamps under one of two layouts, settime, timestamp(), stop, failing conversions, short-circuit conditions with match operators), a history of 0-10 lines (with a store GC pass after some of them when the program marks label values for expiry) and a probe line that shares material with the history (an exact repeat, the same timestamp text, the line that hit stop or a failing conversion) in most cases; run A = history then probe on one VM; run B = fresh compile whose metrics are set to A's pre-probe state through the datum API, then the probe; effects, error flag and timestamps of the data the probe touched must agree. non-trivial = non-empty history, and the program uses a time builtin, stop or a conversion, and the probe shares a token with the history; distinct by (source, history, probe)")
 	st.Assumptions = []string{"B's pre-state is copied from A's real state (values, timestamps, expiry marks), so the relation is exactly the statement's", "timestamps of touched data must be equal, or both lie within the wall-clock bracket of the probe"}
 	runRaw := func(raw json.RawMessage) *vstat.Failure {
 		c, err := vstat.JSON[c05Case](raw)
@@ -199,6 +223,7 @@ func TestC05(t *testing.T) {
 	st.Run(t, runRaw, func() {
 		feats := gen.AllFeatures()
 		feats.TimeBuiltins = true
+		feats.ShortExpiry = true
 		// C05 is differential (same program, with and without history), so constructs
 		// that fault in the VM are welcome: a fault is a runtime error on both sides
 		feats.Histograms, feats.HistIncr, feats.MixedWrites, feats.Unary, feats.StringNumberCompare, feats.NonBoolCond = true, true, true, true, true, true
@@ -271,6 +296,13 @@ func TestC05(t *testing.T) {
 			for _, h := range hist {
 				c.History = append(c.History, vstat.Q(h))
 			}
+			if nh > 0 && strings.Contains(src, " after ") && rapid.Bool().Draw(rt, "gc") {
+				ng := rapid.IntRange(1, 2).Draw(rt, "ngc")
+				for k := 0; k < ng; k++ {
+					c.GcAfter = append(c.GcAfter, rapid.IntRange(0, nh-1).Draw(rt, "gcat"))
+				}
+				st.Class("gc-pass-inside-the-history")
+			}
 			c.Probe = vstat.Q(probe)
 			f, res := runC05(c)
 			st.Eval()
@@ -294,7 +326,12 @@ func TestC05(t *testing.T) {
 
 // c05Template draws one of a few program shapes built around per-line state.
 func c05Template(rt *rapid.T) (string, []string) {
-	switch rapid.IntRange(0, 5).Draw(rt, "tmpl") {
+	switch rapid.IntRange(0, 6).Draw(rt, "tmpl") {
+	case 6:
+		// label values that expire at once: a GC pass inside the history removes
+		// them, and a later line addresses the same label values again
+		return "counter logins by user\ncounter lines\n/^login (?P<u>\\w+)$/ {\n  logins[$u]++\n  del logins[$u] after 1ms\n  lines++\n}\n/^logout (?P<u>\\w+)$/ {\n  del logins[$u]\n  lines++\n}\n",
+			[]string{"login alice", "login bob", "logout alice", "login alice", "logout carol", "login carol"}
 	case 4:
 		// a year-less layout (the current-year option rewrites the parsed instant)
 		lay := rapid.SampledFrom([]string{"Jan _2 15:04:05", "Jan  2 15:04:05", "02/Jan 15:04"}).Draw(rt, "yl")
